@@ -251,6 +251,9 @@ func (s Step) session() structs.Session {
 	for _, c := range s.SvcChks {
 		sess.ServiceChecks = append(sess.ServiceChecks, structs.ServiceCheck{ID: c, Namespace: ""})
 	}
+	for _, c := range s.List {
+		sess.Checks = append(sess.Checks, types.CheckID(c))
+	}
 	if sess.Behavior == "" {
 		sess.Behavior = structs.SessionKeysRelease
 	}
